@@ -44,10 +44,14 @@ RULE = ("random exact GPs (single-output Gaussian / FixedNoise likelihood, model
         "entries, disjoint, equal; thorough: all 2^n-1 patterns for n<=6) x policy sequences on ONE model object (mask, "
         "fill, mask>fill, fill>mask, mask>fill>mask, fill>mask>fill, ignore>mask, ignore>fill, ignore>fill>mask) x how "
         "the pattern arrived (fresh strategy | the object predicted under ignore/mask/fill with ANOTHER pattern and other "
-        "target values, then set_train_data(targets=...) / (inputs, targets) / strict=False) x per step: fast_pred_var "
+        "target values, then set_train_data(targets=...) / (inputs, targets) / strict=False | a deepcopy of the model) x per "
+        "step: fast_pred_var "
         "on/off, max_eager_kernel_size in {default, 0, n, n+n*} (lazy / eager split), detach_test_caches; one case = "
         "(model, pattern, run, step); distinct = distinct (model, pattern, sequence, arrival, cells); non-trivial = at "
-        "least one target missing and at least one observed")
+        "least one target missing and at least one observed; plus models OBTAINED from a model with missing targets: "
+        "get_fantasy_model (1-2 fantasy points, fantasy targets with / without NaNs, made under mask / fill / ignore, source "
+        "fresh or updated by set_train_data first; single-output and batched) judged against deletion of all missing "
+        "observations (source + fantasy) on the joint [train; fantasy; test]")
 TRUSTED = ["translator harness/translate/g7_exact_algebra.py (Python AST of _mean_cache mask/fill, exact_predictive_mean, "
            "exact_predictive_covar, _exact_predictive_covar_missing_obs -> lean/GPVerif/Gen/ExactAlgebra.lean, executed "
            "by the driver in the eager AND the lazy branch configuration and compared with the real code on every case)",
@@ -85,8 +89,8 @@ SEQS_QUICK = SEQS_CORE                       # (kept for replays of older payloa
 SEQS_THOROUGH = SEQS_CORE + SEQS_IGNORE_FIRST
 
 # how the NaN pattern under test arrives on the model object
-ENTRIES = ("fresh", "upd:targets", "upd:inputs+targets", "upd:targets:nonstrict")
-ENTRY_WEIGHTS = (4, 3, 1, 1)
+ENTRIES = ("fresh", "upd:targets", "upd:inputs+targets", "upd:targets:nonstrict", "deepcopy")
+ENTRY_WEIGHTS = (4, 3, 1, 1, 1)
 # what the object did BEFORE the update (with another pattern and other target values): policies it predicted under
 PRE_SEQS = [("mask",), ("fill",), ("mask",), ("fill",), ("ignore",), ("mask", "fill"), ("fill", "mask"),
             ("ignore", "fill", "mask")]
@@ -200,12 +204,12 @@ def build_model(ctx, kind, idx, thorough=False, label="model"):
     return model, lik, tx, ty, desc, test_x, rng
 
 
-def dense(model, lik, tx, ty_clean, desc, test_x):
+def dense(model, lik, tx, ty_clean, desc, test_x, noise=None):
     import torch
     n, s, t = desc["n"], desc["s"], desc["tasks"]
     N, Sx = n * t, s * t
     mj, J, B = G.dense_prior(model, tx, test_x)
-    S = G.spec_noise(lik, desc, n, train=True)
+    S = G.spec_noise(lik, desc, n, train=True) if noise is None else noise
     yflat = ty_clean.reshape(*ty_clean.shape[:ty_clean.dim() - (2 if t > 1 else 1)], N)
     B = torch.broadcast_shapes(B, S.shape[:-2], yflat.shape[:-1])
     nb = 1
@@ -380,8 +384,20 @@ def run_real(ctx, model, lik, tx, ty, desc, test_x, obs_full, union, runs, prev_
     for run in runs:
         entry = run["entry"]
         rec = dict(run)
+        target = model
         if entry == "fresh":
             G.reset_caches(model)
+        elif entry == "deepcopy":
+            # a COPY of a model with missing targets (that has predicted before) is judged like the model itself
+            G.reset_caches(model)
+            for cell in run["pre"]:
+                try:
+                    predict(model, test_x, cell, desc, light=True)
+                except Exception:
+                    ctx.count("pre-update-prediction-raised")
+            target = copy.deepcopy(model)
+            target.eval()
+            target.likelihood.eval()
         else:
             # the object has ANOTHER pattern (and other target values), predicts under some policies, and only then
             # receives the pattern under test: whatever it cached before must not survive in any output
@@ -416,7 +432,7 @@ def run_real(ctx, model, lik, tx, ty, desc, test_x, obs_full, union, runs, prev_
             pol = cell["policy"]
             used.append(pol)
             try:
-                r = predict(model, test_x, cell, desc)
+                r = predict(target, test_x, cell, desc)
                 r["expected_keys"] = sorted(set(used))
                 steps.append((pol, r))
             except Exception as e:
@@ -474,6 +490,122 @@ def run_real(ctx, model, lik, tx, ty, desc, test_x, obs_full, union, runs, prev_
             out["fresh_error"] = f"{type(e).__name__}: {str(e)[:200]}"
     model.set_train_data(tx, ty, strict=False)
     return out
+
+
+# ------------------------------------------------------------------ models OBTAINED from a model with missing targets
+
+def derived_fantasy(ctx, model, lik, tx, ty, desc, test_x, item, sel, quick):
+    """`model.get_fantasy_model(x_f, y_f)` of a model whose targets carry the NaN pattern of `item` (fantasy targets with
+    and without NaNs): the fantasy model's predictions under 'mask' / 'fill' must equal deletion of ALL missing
+    observations (source + fantasy) from the combined data.  Returns a new item (own driver lines on the joint
+    [train; fantasy; test]) with the real-side runs attached, or None."""
+    import random
+    import numpy as np
+    import torch
+    from gpytorch import settings as S
+    if desc["tasks"] != 1 or item["kind"] not in ("single", "batch"):
+        return None          # multitask fantasies with f >= 2 are rejected by the real code (C04)
+    r = random.Random(sel)
+    n, d, nb = desc["n"], tx.shape[-1], item["P"]["nb"]
+    ybatch = tuple(ty.shape[:-1])
+    f = r.choice([1, 2])
+    rnd = lambda shape: torch.tensor([r.uniform(-1.5, 1.5) for _ in range(int(np.prod(shape)))], dtype=ty.dtype).reshape(shape)
+    xf = rnd((*ybatch, f, d))
+    yf = rnd((*ybatch, f))
+    obs_src = item["obs_full"]
+    mode = r.choice(["none", "some", "some"]) if not obs_src.all() else "some"
+    obsf = np.ones((nb, f), dtype=bool)
+    if mode == "some":
+        obsf = np.array([[r.random() < 0.5 for _ in range(f)] for _ in range(nb)], dtype=bool)
+        if obsf.all():
+            obsf[r.randrange(nb), r.randrange(f)] = False
+    kw, noise = {}, None
+    if desc["lik"] == "fixed":
+        nf = torch.tensor([r.uniform(0.05, 0.6) for _ in range(f)], dtype=ty.dtype)
+        kw = {"noise": nf}
+        noise = torch.diag_embed(torch.cat([lik.noise_covar.noise.detach(), nf]))
+    tx2 = torch.cat([tx.expand(*ybatch, n, d), xf], dim=-2)
+    ty2 = torch.cat([ty, yf], dim=-1)
+    desc2 = dict(desc, n=n + f)
+    P2 = dense(model, lik, tx2, ty2, desc2, test_x, noise=noise)
+    pat2 = [bool(v) for b in range(nb) for v in list(obs_src[b]) + list(obsf[b])]
+    item2 = make_item(ctx, item["kind"], item["idx"], pat2, desc2, P2)
+    if item2 is None:
+        return None
+    item2["keyprefix"] = "fantasy-model:"
+    item2["derived"] = {"type": "fantasy", "sel": sel, "quick": bool(quick), "source_pattern": item["pat"], "f": f,
+                        "fantasy_observed": obsf.astype(int).tolist()}
+    if item.get("label"):
+        item2["label"] = item["label"]
+    # ---- real side
+    y_nan = ty.clone()
+    y_nan[~torch.as_tensor(obs_src.reshape(ty.shape))] = float("nan")
+    yf_nan = yf.clone()
+    yf_nan[~torch.as_tensor(obsf.reshape(yf.shape))] = float("nan")
+    other = {"mask": "fill", "fill": "mask"}
+    plans = []
+    for pol in ("mask", "fill"):
+        fasts = [r.random() < 0.5] if quick else [False, True]
+        for fast in fasts:
+            plans.append((pol, pol, [pol] if r.random() < 0.5 else [pol, other[pol]], fast))
+    cross = r.choice(["mask", "fill"])
+    plans.append(("ignore", "ignore", [cross], r.random() < 0.5))          # made while no policy is active
+    plans.append((cross, cross, [other[cross]], r.random() < 0.5))         # made under one policy, used under the other
+    out = {"seq": [], "rejected": [], "predictions_only": True}
+    shape_mask = lambda pat: torch.as_tensor(np.array(pat, dtype=bool).reshape(tuple(ty.shape)))
+    for src_pol, fant_pol, seq, fast in plans:
+        src_entry = "fresh" if r.random() < 0.6 else "upd:targets"
+        pre = [{"policy": src_pol, "fast": fast, "eager": r.choice(EAGER_KINDS)}]
+        cells = [{"policy": p, "fast": fast, "eager": r.choice(EAGER_KINDS), "detach": r.choice([None, None, False, True])}
+                 for p in seq]
+        rec = {"seq": list(seq), "fast": fast, "entry": "fantasy", "src_entry": src_entry, "fant_policy": fant_pol,
+               "pre": pre, "cells": cells}
+        try:
+            if src_entry == "fresh":
+                model.set_train_data(tx, y_nan, strict=False)
+                G.reset_caches(model)
+            else:      # set_train_data-then-fantasy: the source got its pattern through a targets-only update
+                _, y_prev = previous_targets(ty, item["pat"], [], r.randrange(1 << 30), shape_mask)
+                model.set_train_data(tx, y_prev, strict=False)
+                G.reset_caches(model)
+                predict(model, test_x, pre[0], desc, light=True)
+                model.set_train_data(targets=y_nan)
+            for cell in pre:
+                predict(model, test_x, cell, desc, light=True)
+            with warnings.catch_warnings(), S.observation_nan_policy(fant_pol), S.fast_pred_var(fast):
+                warnings.simplefilter("ignore")
+                fant = model.get_fantasy_model(xf, yf_nan, **kw)
+        except Exception as e:
+            rec["steps"] = [(c["policy"], {"error": f"get_fantasy_model: {type(e).__name__}: {str(e)[:200]}"}) for c in cells]
+            out["seq"].append(rec)
+            continue
+        steps, used = [], []
+        for cell in cells:
+            used.append(cell["policy"])
+            try:
+                res = predict(fant, test_x, cell, desc2)
+                res["expected_keys"] = sorted(set(used))
+                steps.append((cell["policy"], res))
+            except Exception as e:
+                steps.append((cell["policy"], {"error": f"{type(e).__name__}: {str(e)[:200]}"}))
+        rec["steps"] = steps
+        out["seq"].append(rec)
+    model.set_train_data(tx, ty, strict=False)
+    G.reset_caches(model)
+    item2["real"] = out
+    return item2
+
+
+def derived_selection(items, quick):
+    """Which (model, pattern) items get a fantasy model: quick 2 per model (one of the first with a missing target, the
+    last one), thorough up to 6 spread over the patterns."""
+    if not items:
+        return []
+    missing = [i for i, it in enumerate(items) if not it["obs_full"].all()]
+    if quick:
+        return sorted(set(missing[:1] + [len(items) - 1]))
+    step = max(1, len(items) // 6)
+    return sorted(set(missing[:1] + list(range(0, len(items), step))[:6]))
 
 
 # ------------------------------------------------------------------ correspondence
@@ -534,11 +666,18 @@ def correspondence(ctx, extra=False):
             pats = model_patterns(rng, kind, P, ty.numel(), quick)
             items = [it for it in (make_item(ctx, kind, idx, pat, desc, P) for pat in pats) if it is not None]
             valid = [it["pat"] for it in items]
-            for item in items:
+            chosen = derived_selection(items, quick)
+            for k, item in enumerate(items):
                 lines += item_lines(item)
                 runs = make_runs(rng, seqs, quick)
                 item["real"] = run_real(ctx, model, lik, tx, ty, desc, test_x, item["obs_full"], item["union"], runs, valid)
                 work.append(item)
+                if k in chosen:
+                    d = derived_fantasy(ctx, model, lik, tx, ty, desc, test_x, item, rng.randrange(1 << 30), quick)
+                    if d is not None:
+                        lines += item_lines(d)
+                        work.append(d)
+                        ctx.count("derived:fantasy-models")
             ctx.count("models")
     ctx.notes["phase1_s"] = round(T(), 1)
     replies = drive(ctx, lines, 4 if quick else 10)
@@ -548,7 +687,8 @@ def correspondence(ctx, extra=False):
         compare(ctx, item, replies)
         k = str(int((~item["obs_full"]).sum()))
         dist["missing_count"][k] = dist["missing_count"].get(k, 0) + 1
-        dist["kind"][item["kind"]] = dist["kind"].get(item["kind"], 0) + 1
+        kd = item["kind"] + (":fantasy-model" if item.get("derived") else "")
+        dist["kind"][kd] = dist["kind"].get(kd, 0) + 1
         if item["obs_full"].shape[0] > 1 and (item["obs_full"] != item["obs_full"][0]).any():
             dist["batch_items_with_different_patterns_per_element"] += 1
     ctx.notes["distribution"] = dist
@@ -587,10 +727,14 @@ def compare(ctx, item, replies):
         if ru.strip() != "ok " + " ".join("1" if v else "0" for v in union):
             ctx.broke("correspondence", "ExactGP.obsUnion vs the harness' batch reduction", f"{ru} on {where}")
 
+    kp = item.get("keyprefix", "")
+
     def rp(extra):
         d = {"kind": item["kind"], "idx": item["idx"], "pattern": item["pat"], "desc": _slim(desc)}
         if item.get("label"):
             d["label"] = item["label"]
+        if item.get("derived"):
+            d["derived"] = item["derived"]
         d.update(extra)
         if len(item["lines_fill"][0]) < 20000:
             d["nan_request"] = item["lines_fill"][0]
@@ -609,6 +753,7 @@ def compare(ctx, item, replies):
         return kappa, rel, sc_mean, sc_cov
 
     def check(key, what, got, exp, tol, extra=None):
+        key = kp + key
         got, exp = np.asarray(got, dtype=float), np.asarray(exp, dtype=float)
         ctx.count("comparisons")
         if np.isnan(got).any():
@@ -635,8 +780,7 @@ def compare(ctx, item, replies):
     # ---- predictions along every policy sequence on one object
     for run in real["seq"]:
         seqname = ">".join(run["seq"]) + (":fast" if run["fast"] else ":exact")
-        if run["entry"] != "fresh":
-            seqname += f" after [{'>'.join(c['policy'] for c in run['pre'])} on another pattern, {run['entry'][4:]} update]"
+        seqname += arrival_text(run)
         runkey = run["entry"] + "|" + ",".join(c["eager"] + {None: "", False: "a", True: "d"}[c.get("detach")]
                                                 for c in run["cells"])
         for step, (pol, r) in enumerate(run["steps"]):
@@ -650,9 +794,9 @@ def compare(ctx, item, replies):
             if pol == "ignore":
                 continue   # with NaN targets and no policy the outputs are NaN by design; only its cache effect matters
             ctx.count(f"cell:{pol}:{'fast' if cell['fast'] else 'exact'}:max_eager={cell['eager']}"
-                      f"({'eager' if eager else 'lazy'}):{'fresh' if run['entry'] == 'fresh' else 'after-update'}")
+                      f"({'eager' if eager else 'lazy'}):{ARRIVAL_CLASS.get(run['entry'], 'after-update')}")
             if "error" in r:
-                ctx.fail(f"exception:{pol}", f"model(x*) under policy {pol} raised {r['error']} on {where} seq={seqname}",
+                ctx.fail(f"{kp}exception:{pol}", f"model(x*) under policy {pol} raised {r['error']} on {where} seq={seqname}",
                          rp(extra))
                 continue
             if r["keys"] != r["expected_keys"]:
@@ -682,7 +826,7 @@ def compare(ctx, item, replies):
                         _absmax(got_c - ex["covIgn"]) <= tol_c + rel * sc_cov:
                     # the signature of the known defect: the covariance conditions on the rows of the missing targets
                     ctx.count("comparisons")
-                    ctx.fail("exact_predictive_covar/nan_policy",
+                    ctx.fail(kp + "exact_predictive_covar/nan_policy",
                              f"posterior covariance under '{pol}' equals the covariance conditioned on ALL training "
                              f"inputs (policy ignored): |impl - deleted| = {_absmax(got_c - ec):.3e}, "
                              f"|impl - ignoring-policy model| = {_absmax(got_c - ex['covIgn']):.1e} on {where} seq={seqname}",
@@ -768,10 +912,24 @@ def compare(ctx, item, replies):
 
 def _run_payload(run):
     """JSON-able description of one run (arrival + cells), enough for `replay` to re-execute it."""
-    d = {"seq": run["seq"], "fast": run["fast"], "entry": run["entry"], "cells": run["cells"]}
-    if run["entry"] != "fresh":
-        d.update(pre=run["pre"], prev=run["prev"], prev_pattern=run.get("prev_pattern"))
-    return d
+    return {k: v for k, v in run.items() if k != "steps"}
+
+
+ARRIVAL_CLASS = {"fresh": "fresh", "deepcopy": "deepcopy", "fantasy": "fantasy-model"}
+
+
+def arrival_text(run):
+    e = run["entry"]
+    if e == "fresh":
+        return ""
+    pre = ">".join(c["policy"] for c in run.get("pre", []))
+    if e == "deepcopy":
+        return f" on a deepcopy of the model [which predicted {pre}]"
+    if e == "fantasy":
+        src = f"{run['src_entry']} source predicted {pre}" if run["src_entry"] == "fresh" else \
+            f"source predicted on another pattern, got the targets by set_train_data, predicted {pre}"
+        return f" on get_fantasy_model(...) made under '{run['fant_policy']}' [{src}]"
+    return f" after [{pre} on another pattern, {e[4:]} update]"
 
 
 # ------------------------------------------------------------------ failing-input search (targeted, bounded)
@@ -952,6 +1110,11 @@ def search_round(ctx, rnd, kinds, n_models, force, deadline):
             item["real"] = run_real(ctx, model, lik, tx, ty, desc, test_x, item["obs_full"], item["union"], runs,
                                     valid, extras=False)
             work.append(item)
+            if item is items[0]:
+                d = derived_fantasy(ctx, model, lik, tx, ty, desc, test_x, item, rng.randrange(1 << 30), True)
+                if d is not None:
+                    lines += item_lines(d)
+                    work.append(d)
     if not work:
         return 0
     replies = drive(ctx, lines, 4)
@@ -972,6 +1135,19 @@ def replay(ctx, payload):
     label = case.get("label") or "model"
     model, lik, tx, ty, desc, test_x, rng = build_model(ctx, case["kind"], case["idx"], thorough, label=label)
     P = dense(model, lik, tx, ty, desc, test_x)
+    if case.get("derived"):
+        src = make_item(ctx, case["kind"], case["idx"], case["derived"]["source_pattern"], desc, P)
+        if src is None:
+            return True
+        item = derived_fantasy(ctx, model, lik, tx, ty, desc, test_x, src, case["derived"]["sel"],
+                               case["derived"].get("quick", True))
+        if item is None:
+            return True
+        replies = drive(ctx, item_lines(item))
+        compare(ctx, item, replies)
+        for f in ctx.failures[:5]:
+            print("replay:", f["key"], f["what"][:300])
+        return not ctx.failures and not ctx.broken
     item = make_item(ctx, case["kind"], case["idx"], case["pattern"], desc, P)
     if item is None:
         return True
